@@ -203,6 +203,14 @@ theorem rowToPy_pyRow (x : PyVal) (h : pyShape x ≠ some []) : rowToPy false (p
     cases sh with
     | nil => exact absurd rfl h
     | cons a s => rfl
+  | none => exact absurd rfl h
+
+/-- a row that reads back as its value is not `None` -/
+theorem not_none_of_back (vl : Bool) (x : PyVal) (h : rowToPy vl (pyRow x) = x) : x.isNone = false := by
+  cases x with
+  | sc v => rfl
+  | arr sh fl => rfl
+  | none => simp [pyRow, rowToPy] at h
 
 theorem rowToPy_true (sh : List Nat) (fl : List Val) : rowToPy true (sh, fl) = .arr sh fl := by
   unfold rowToPy
@@ -268,6 +276,7 @@ theorem defaultFor_regular (K : LeafClass) (v0 : PyVal) (h0 : ∀ v ∈ pyLeaves
     pyShape (defaultFor v0) = pyShape v0 ∧ ∀ v ∈ pyLeaves (defaultFor v0), K.holds v = true := by
   cases v0 with
   | arr sh fl => exact ⟨rfl, h0⟩
+  | none => exact ⟨rfl, h0⟩
   | sc x =>
     have hx := h0 x (by simp [pyLeaves])
     cases x <;> cases K <;> simp_all [LeafClass.holds, defaultFor, pyShape, pyLeaves, two63, two64]
@@ -304,9 +313,13 @@ theorem dictPropToArr_of_rows {ι : Type} (data : List (ι × Attrs)) (name : St
     (hback : ∀ x ∈ filledValues data name, rowToPy vl (pyRow x) = x) :
     ∃ c, dictPropToArr data name = .ok c ∧ c.WF data.length ∧
       ∀ i (hi : i < data.length), c.entry i = (data[i]).2.lookup name := by
+  have hnone : (filledValues data name).any PyVal.isNone = false := by
+    rw [List.any_eq_false]
+    intro x hx
+    simp [not_none_of_back vl x (hback x hx)]
   refine ⟨{ dtype := dt, varlen := vl, rows := (filledValues data name).map pyRow,
             missing := if (missingMask data name).any id then some (missingMask data name) else none },
-          by simp only [dictPropToArr, hdt], ?_, ?_⟩
+          by simp only [dictPropToArr, hnone, Bool.false_eq_true, if_false, hdt], ?_, ?_⟩
   · constructor
     · simp [filledValues]
     · intro ms hms
